@@ -95,6 +95,29 @@ func (e *c11OEnv) symbolic(rel string) string {
 	return rel
 }
 
+// plantFor: if the CAS shard layout would (lexically) place the entry of this digest parameter outside the cache
+// directory but inside the test root, put a `data` file there before the request: the file an attacker aims at
+// (for instance a tag of the build-index store next door).  Real code rejects such a parameter long before.
+func (e *c11OEnv) plantFor(seg string) {
+	raw, err := url.PathUnescape(seg)
+	if err != nil || !strings.HasPrefix(raw, "sha256:") {
+		return
+	}
+	name := raw[len("sha256:"):]
+	if len(name) < 4 {
+		return
+	}
+	target := filepath.Join(e.cache, name[0:2], name[2:4], name, "data")
+	if strings.HasPrefix(target, e.cache+"/") || !strings.HasPrefix(target, e.root+"/") {
+		return
+	}
+	if _, err := os.Stat(target); err == nil {
+		return
+	}
+	os.MkdirAll(filepath.Dir(target), 0775)
+	os.WriteFile(target, e.blobs[0].Content, 0644)
+}
+
 func c11ODiff(a, b map[string]string) string {
 	var out []string
 	for k, v := range a {
@@ -178,8 +201,10 @@ func (e *c11OEnv) close() {
 
 func c11OClass(code int) string {
 	switch code {
-	case 200, 201, 202, 204:
+	case 200, 201, 204:
 		return "ok"
+	case 202:
+		return "accepted"
 	case 400:
 		return "badreq"
 	case 404:
@@ -237,6 +262,29 @@ func c11OriginExec(t *testing.T, tr *verifh.T, c verifh.Case) {
 				e.uids[op[2]] = h.Get("Location")
 			}
 			tr.Op(op[1:], cls)
+		case (op[1] == "bget" || op[1] == "bhead" || op[1] == "bdel") && len(op) == 3:
+			seg, err := verifh.Unstr(op[2])
+			if err != nil || seg == "" {
+				continue
+			}
+			if strings.HasPrefix(seg, "#") {
+				seg = blob(seg[1:]).Digest.String()
+			} else if strings.ContainsAny(seg, "/ ?#\r\n") {
+				continue
+			} else {
+				e.plantFor(seg)
+			}
+			before := c11OSnapshot(e)
+			var cls string
+			switch op[1] {
+			case "bget":
+				cls, _ = c11ODo("GET", e.addr, "/namespace/ns/blobs/"+seg, nil, nil)
+			case "bhead":
+				cls, _ = c11ODo("HEAD", e.addr, "/internal/namespace/ns/blobs/"+seg+"?local=true", nil, nil)
+			default:
+				cls, _ = c11ODo("DELETE", e.addr, "/internal/blobs/"+seg, nil, nil)
+			}
+			tr.Op(op[1:], cls, c11ODiff(before, c11OSnapshot(e)))
 		case (op[1] == "patch" || op[1] == "commit" || op[1] == "ppatch" || op[1] == "pcommit" || op[1] == "dcommit") && len(op) == 4:
 			seg, err := verifh.Unstr(op[2])
 			if err != nil || seg == "" {
@@ -316,6 +364,38 @@ func TestVerif_C11Origin(t *testing.T) {
 			c11OriginExec(t, tr, verifh.Case{Ops: [][]string{op("start", "1"), op("commit", g, "0"),
 				op("patch", "@1", "1"), op("commit", "@1", "1"), op("commit", "@1", "1")}})
 			tr.Count("exhaustive_pairs_cases", 2)
+		}
+	}
+	// (a') CAS-name routes: the {digest} parameter as a legitimate digest, and as 64 characters that start with k hex
+	// characters and continue with escaped separators and dot segments, for every split point k
+	c11OriginExec(t, tr, verifh.Case{Ops: [][]string{op("start", "1"), op("patch", "@1", "1"), op("commit", "@1", "1"),
+		op("bhead", "#1"), op("bget", "#1"), op("bhead", "#2"), op("bget", "#2"), op("bdel", "#1"), op("bhead", "#1"), op("bdel", "#2")}})
+	{
+		const hexs = "0123456789abcdefABCDEF0123456789abcdef0123456789abcdef0123456789ab"
+		var segs []string
+		step := verifh.Scale(3, 1)
+		for k := 0; k <= 63; k++ {
+			if k%step != 0 && k != 32 && k != 33 && k != 34 && k != 62 {
+				continue
+			}
+			for j := 3; j <= 6; j++ {
+				tail := strings.Repeat("%2F..", j) + "%2F"
+				if pad := 64 - k - 3*j - 1; pad >= 1 {
+					segs = append(segs, "sha256:"+hexs[:k]+tail+strings.Repeat("x", pad))
+				}
+			}
+			segs = append(segs, "sha256:"+hexs[:k]+strings.Repeat(".", 64-k))
+		}
+		segs = append(segs, "sha256:"+strings.Repeat("A", 64), "sha256:"+hexs[:63], "sha256:"+hexs[:64]+"0", "sha512:"+hexs[:64],
+			"sha256:"+hexs[:32]+"%252F..%252F..%252F..%252F..%252Ftags%252Fxxxxxx", hexs[:64], "sha256:"+hexs[:60]+"%zz")
+		for i := 0; i < len(segs); i += 3 {
+			var c verifh.Case
+			for _, sg := range segs[i:min(i+3, len(segs))] {
+				g := verifh.Str(sg)
+				c.Ops = append(c.Ops, op("bhead", g), op("bget", g), op("bdel", g))
+			}
+			c11OriginExec(t, tr, c)
+			tr.Count("cas_route_cases", 1)
 		}
 	}
 	// (b) random interleavings of legitimate uploads and hostile ids
